@@ -389,8 +389,34 @@ def batches(rng, tier):
         n = r.choice([1, 2, 2, 3, 3])
         d = rdims(r, n)
         s = L(d)
-        k = r.below(12)
-        if k == 0:
+        k = r.below(16)
+        if k == 12:
+            ops.append(f"out {s} {r.below(9)}")
+        elif k == 13:
+            d2 = [max(2, x) for x in d]
+            fl = [r.range(0, x - 2) for x in d2]
+            ops.append(f"interp {L(d2)} {r.below(9)} {L(fl)} {L([r.below(4) for _ in d2])}")
+        elif k == 14:
+            d1 = [r.range(0, 5) for _ in range(n)]
+            d2 = list(d1) if r.chance(2, 3) else [r.range(0, 5) for _ in range(n)]
+            c1 = [r.range(-2, 2) for _ in range(count([0] * n, d1))]
+            c2 = [r.range(-2, 2) for _ in range(count([0] * n, d2))]
+            if len(c1) == len(c2) and r.chance(1, 2):
+                c2 = list(c1)
+                if c2 and r.chance(2, 3):
+                    c2[r.below(len(c2))] += r.choice([-1, 1])
+            ops.append(f"cmp {L(d1)} {L(c1) if c1 else '-'} {L(d2)} {L(c2) if c2 else '-'}")
+        elif k == 15:
+            ds = [[r.range(0, 5) for _ in range(n)] for _ in range(3)]
+            moved, pr = [False] * 3, []
+            for _ in range(r.range(1, 6)):
+                op = r.choice(REG_OPS)
+                m = reg_apply(moved, op)
+                if m is not None:
+                    moved = m
+                    pr.append(op)
+            ops.append(f"regs {L(ds[0])} 1 {L(ds[1])} 2 {L(ds[2])} 3 {'.'.join(pr) if pr else '-'}")
+        elif k == 0:
             ops.append(f"offs {r.choice('us')} {s} 1")
         elif k == 1:
             ops.append(f"ats {s} {r.below(5)} 1")
@@ -423,7 +449,7 @@ def batches(rng, tier):
             ops.append(f"clamps {s} 1")
         else:
             ops.append(f"apply {s} 1 {s} 2")
-    yield Batch("larger-sizes-sampled", ops, note="extents up to 9, every op kind, ~1/12 each (range and refsub 2/12)")
+    yield Batch("larger-sizes-sampled", ops, note="extents up to 9 (cmp, regs: up to 5), every op kind, ~1/16 each (range and refsub 2/16)")
 
 
 MANIFEST = {
